@@ -49,7 +49,11 @@ def build(P):
         """an arbitrary HomogeneousMatrix: abstract 4x4 matrix + frame labels"""
         from pyvc.externals import mat
         o = it.ctx.new_cell("obj", {}, HM)
-        it.ctx.cell(o).update(matrix=mat.mat4(it.ctx.fresh(name + "_m", I)), src=FID.fresh(it.ctx, name + "_src"), dst=FID.fresh(it.ctx, name + "_dst"))
+        m = it.ctx.fresh(name + "_m", I)
+        # the constructor also keeps the pose it was built from: the translation and rotation of the same matrix (a body that reads them is not an alarm;
+        # what it computes from them has to be covered by an external contract, else the task reports ENGINE-ERROR, not a violation)
+        it.ctx.cell(o).update(matrix=mat.mat4(m), src=FID.fresh(it.ctx, name + "_src"), dst=FID.fresh(it.ctx, name + "_dst"),
+                              position=mat.vec3([f(m) for f in mat.POS]), rotation=VOpaque("quaternion", mat.QUAT(m)))
         return o
     # ---------------------------------------------------------------- HomogeneousMatrix.__init__ builds hom(position, rotation) and keeps the labels
     P.verify(f"{TR}:HomogeneousMatrix.__init__", name="HomogeneousMatrix.__init__",
